@@ -844,6 +844,27 @@ func ruleRefKey(c *Ctx) {
 			}
 			c.ob(rule, pr.typ+".fromMap:key", fm.Pos(), ok, fmt.Sprintf("member names read: %v, want only %q", keys, pr.key))
 		}
+		// the text handed to the reference parser is the decoded member itself, not a rewriting of it
+		if fm != nil && pr.typ == "Ref" {
+			defs := c.localDefs(fm)
+			ast.Inspect(fm.Body, func(n ast.Node) bool {
+				call, ok := n.(*ast.CallExpr)
+				if !ok || len(call.Args) == 0 {
+					return true
+				}
+				f, _ := c.callee(call).(*types.Func)
+				if f == nil || f.Pkg() == nil || !(strings.HasSuffix(f.Pkg().Path(), "/jsonreference") || f.Pkg() == c.Types && (f.Name() == "NewRef" || f.Name() == "MustCreateRef")) {
+					return true
+				}
+				if !isStringType(c.typeOf(call.Args[0])) {
+					return true
+				}
+				good, why := c.verbatimMember(fm, call.Args[0], defs, 0)
+				c.ob(rule, pr.typ+".fromMap:text-verbatim", call.Pos(), good,
+					"the text given to the reference parser is not the decoded member itself ("+why+"): decoding rewrites the reference text")
+				return true
+			})
+		}
 		// a constant output can only be right for the empty text: it must be control-dependent on String() == ""
 		if m != nil {
 			var strVar types.Object
@@ -931,4 +952,60 @@ func ruleRefKey(c *Ctx) {
 	} else {
 		c.undecided(rule, "Schema.UnmarshalJSON", token.NoPos, "decoder not found")
 	}
+}
+
+// verbatimMember decides whether a string expression is, unchanged, a member read from the function's map parameter.
+func (c *Ctx) verbatimMember(fd *ast.FuncDecl, e ast.Expr, defs map[types.Object][]ast.Expr, depth int) (bool, string) {
+	if depth > 6 {
+		return false, "provenance chain too long"
+	}
+	switch x := unparen(e).(type) {
+	case *ast.Ident:
+		o := c.objOf(x)
+		ds := defs[o]
+		if len(ds) == 0 {
+			// variable bound by a type switch
+			var sw ast.Expr
+			ast.Inspect(fd.Body, func(n ast.Node) bool {
+				ts, ok := n.(*ast.TypeSwitchStmt)
+				if !ok {
+					return true
+				}
+				for _, cl := range ts.Body.List {
+					if c.Info.Implicits[cl] == o {
+						if as, ok := ts.Assign.(*ast.AssignStmt); ok && len(as.Rhs) == 1 {
+							sw = as.Rhs[0]
+						}
+					}
+				}
+				return true
+			})
+			if sw != nil {
+				return c.verbatimMember(fd, sw, defs, depth+1)
+			}
+			return false, x.Name + " is not a local copy of the member"
+		}
+		for _, d := range ds {
+			if d == nil {
+				continue
+			}
+			if ok, why := c.verbatimMember(fd, d, defs, depth+1); !ok {
+				return false, why
+			}
+		}
+		return true, ""
+	case *ast.TypeAssertExpr:
+		return c.verbatimMember(fd, x.X, defs, depth+1)
+	case *ast.IndexExpr:
+		if id, ok := unparen(x.X).(*ast.Ident); ok && c.objOf(id) == c.paramObj(fd, 0) {
+			return true, ""
+		}
+		return false, "read from " + exprString(x.X)
+	case *ast.CallExpr:
+		if c.isConversion(x) && len(x.Args) == 1 {
+			return c.verbatimMember(fd, x.Args[0], defs, depth+1)
+		}
+		return false, "result of " + exprString(x.Fun)
+	}
+	return false, "computed by " + exprString(e)
 }
